@@ -110,6 +110,13 @@ theorem good_step {s s' : St} {a : Act} (hg : Good s) (hs : step s a = some s') 
             have : tp ≠ t := fun h => htpw (h ▸ htw)
             exact (List.mem_erase_of_ne this).mpr htp
     · simp at hs
+  | stray t =>
+    simp only [step] at hs
+    split at hs
+    · simp at hs
+    · simp only [Option.some.injEq] at hs
+      subst hs
+      exact ⟨h1, h2, h3, h4, h5, h6, h7, rest, hnd, hfresh, hprog⟩
 
 theorem good_run {s s' : St} (acts : List Act) (hg : Good s) (hr : run s acts = some s') : Good s' := by
   induction acts generalizing s with
